@@ -207,7 +207,7 @@ pub fn run(rep: &mut Report, driver: &str, workers: usize, thorough: bool, seed:
                 let mut outs: [Option<String>; 2] = [None, None];
                 let mut order: Vec<u8> = s.clone();
                 // continue round-robin until both are done
-                for _ in 0..40 {
+                for _ in 0..(n0 + n1 + 40) {
                     order.push(0);
                     order.push(1);
                 }
